@@ -48,6 +48,8 @@ claimed = {
              tech="exhaustive exploration of event scripts x goroutine schedules by the polysym symbolic executor over the real go/ssa (no symbolic data: the state space is enumerated, the solver is not consulted); deadlock / step-budget detection; native replay"),
  "C09": dict(design="5/C09", text="Designed assemblies (1..2/3 junctions, alternatives, either orientation, input order, dead-end decoy) with symbolic fragment interiors run through CircularLigate / getConstructs / recurseLigate / seqhash.Hash from SSA with simulated goroutines and channels: returned constructs and the rings of the design correspond (none missing, none spurious, no two the same molecule up to rotation and strand); scheduling independence on concrete pools over all explored interleavings; the full GoldenGate pipeline with BsaI carriers; termination on pools whose overhangs close a cycle excluding the seed.",
              note="Goroutines are scheduled at synchronisation points only; GOMAXPROCS, the Go scheduler and the race detector are outside the claim. BLAKE3 is an assumed collision-free uninterpreted function."),
+ "C01": dict(design="5/C01", text="Records laid out by an independent flat-file writer in the harness (LOCUS columns, keyword blocks with continuation lines, references, COMMENT, feature tables incl. features without qualifiers, two- and three-line locations, wrapped qualifier values, ORIGIN blocks) with locus-name characters, metadata words, qualifier-value bytes (printable ASCII without the double quote: '/', '=' and spaces included) and all ORIGIN letters symbolic: Parse from SSA (regexps through the symbolic matcher) returns the letters, every LOCUS field, re-joined keyword blocks, reference fields, features in order with key, location text and verbatim qualifier values; ParseMulti / ParseFlat give k results each equal to parsing the record alone.",
+             note="Known finding C01-F7 (a wrapped value's continuation line beginning with '/') is scoped to the two qualifier clauses. Record structure is enumerated from a template family (see bounds); sizes of 10^5 bases / 40 features are outside the claim."),
 }
 
 na_reason = {}
